@@ -127,6 +127,7 @@ const horizon = 400000
 func runThreads(b *built, decide sched.Decision) (res [][]string, e *sched.Exec, sh any) {
 	ent.rewind()
 	ent.forced = -1
+	resetInputs()
 	sh = b.newShared()
 	res = make([][]string, len(b.threads))
 	fns := make([]func(), len(b.threads))
@@ -156,6 +157,7 @@ func (b *built) computeExpected(linearizable bool) {
 		rec = func(pos []int, order [][2]int) {
 			if len(order) == total {
 				ent.rewind()
+				resetInputs()
 				sh := b.newShared()
 				res := make([][]string, len(b.threads))
 				for i := range res {
@@ -188,6 +190,7 @@ func (b *built) computeExpected(linearizable bool) {
 	for i, calls := range b.threads {
 		ent.rewind()
 		ent.forced = i
+		resetInputs()
 		sh := b.newShared()
 		for _, c := range calls {
 			b.expected[i] = append(b.expected[i], c.do(sh))
@@ -195,6 +198,7 @@ func (b *built) computeExpected(linearizable bool) {
 	}
 	ent.forced = -1
 	ent.rewind()
+	resetInputs()
 	sh := b.newShared()
 	for _, p := range b.probes {
 		b.probeExp = append(b.probeExp, p.do(sh))
@@ -594,6 +598,7 @@ func racePass() {
 				reps = 3
 			}
 			for k := 0; k < reps; k++ {
+				resetInputs()
 				sh := b.newShared()
 				var wg sync.WaitGroup
 				start := make(chan struct{})
